@@ -588,21 +588,9 @@ Definition restore_saved (t : term) (s : saved) : term :=
   let '(x, y, fg, bg, bl, ice, i) := s in
   set_ice (set_ins (set_attr (set_pos t x y) fg bg bl) i) ice.
 
-(* one character.  [fuel] bounds the macro nesting depth *)
-Fixpoint astep (fuel : nat) (m : amach) (ch : Z) : outcome :=
+(* one character, given the macro invoker ([invoke_macro_by_id]) *)
+Definition astep_gen (invoke : term -> pst -> Z -> outcome) (m : amach) (ch : Z) : outcome :=
   let t := tm m in let p := ps m in
-  (* invoke_macro_by_id: feed the macro text, errors are logged and ignored *)
-  let invoke (t0 : term) (p0 : pst) (id : Z) : outcome :=
-    match lookup id (macros p0) with
-    | None => ok t0 p0
-    | Some body =>
-      match fuel with
-      | O => ODiverge
-      | S k => fold_left (fun acc c => match acc with
-                                     | OOk m1 | OErr m1 => match astep k m1 c with OErr m2 => OOk m2 | o => o end
-                                     | o => o end) body (ok t0 p0)
-      end
-    end in
   match st p with
   | SMusic ms => parse_music t p ms ch
   | SEsc =>
@@ -679,6 +667,22 @@ Fixpoint astep (fuel : nat) (m : amach) (ch : Z) : outcome :=
   | SCsi is_start => csi_final t p is_start ch
   | SDefault => step_default t p ch
   end.
+
+(* invoke_macro_by_id: feed the macro text through print_char, errors are logged and ignored *)
+Definition feed_macro (stepf : amach -> Z -> outcome) (body : list Z) (t0 : term) (p0 : pst) : outcome :=
+  fold_left (fun acc c => match acc with
+                          | OOk m1 | OErr m1 => match stepf m1 c with OErr m2 => OOk m2 | o => o end
+                          | o => o end) body (ok t0 p0).
+(* [fuel] bounds the macro nesting depth (the real code recurses without bound: stack overflow) *)
+Fixpoint astep (fuel : nat) (m : amach) (ch : Z) : outcome :=
+  astep_gen (fun t0 p0 id =>
+               match lookup id (macros p0) with
+               | None => ok t0 p0
+               | Some body => match fuel with
+                              | O => ODiverge
+                              | S k => feed_macro (astep k) body t0 p0
+                              end
+               end) m ch.
 
 Definition MACRO_FUEL : nat := 32.
 Definition ansi_step (m : amach) (ch : Z) : outcome := astep MACRO_FUEL m ch.
